@@ -33,11 +33,11 @@ def glue_jobs(mode: str, tier: str, chunk: int = 40) -> List[Dict]:
     elif mode == "C07":
         add(1, 6, 0, 0, 1, 400)
         add(2, 6, 1, 0, 1, 900)
-        add(3, 3, 0, 0, 0, 900)
+        add(3, 2, 0, 0, 0, 900)
     else:
         add(1, 6, 0, 2, 1, 400)
         add(2, 6, 1, 1, 1, 900)
-        add(3, 3, 1, 0, 0, 900)
+        add(3, 2, 1, 0, 0, 900)
         if mode == "C04":
             add(3, 1, 0, 1, 0, 900)  # three requirement keys with a yielding first key: completion order vs key order
     return jobs
@@ -51,5 +51,5 @@ def glue_bounds(tier: str) -> Dict[str, str]:
         }
     return {
         "glue": "1-leaf: all; 2-leaf: all 216 shapes (6 leaf kinds incl. bare format constraint) x 4 spelling/bracket/duplicate-key variants x all states x yields<=1; "
-        "3-leaf: 2 skeletons x 9 operator pairs x 27 leaf kinds (rc, hint, rc+fc) x 4 attach flags x all states"
+        "3-leaf: 2 skeletons x 9 operator pairs x 8 leaf-kind combinations (rc, hint) x 4 attach flags x all states"
     }
